@@ -475,6 +475,9 @@ Inductive cstmt :=
 | SCss (e : option cexpr) (sfx : bstr)                   (* {css sfx} / {css e, sfx} *)
 | SCall (name : bstr) (d : cdata) (ps : cparams)
     (* {call name [data="all" | data="$e"]}{param k: e /}..{param k}..{/param}..{/call} *)
+| SMsg (body : cblk)
+    (* {msg desc=".."}text{$x}{call ..}..{/msg} without plural, rendered without a bundle: raw text and placeholders
+       (print, call) in the scope of the message; [msg_ok body] restricts the block to these *)
 with cblk := BNil | BCons (s : cstmt) (r : cblk)
 with celse := ENone | EElse (b : cblk) | EElif (c : cexpr) (th : cblk) (rest : celse)
 with ccases := KNone | KDefault (b : cblk) | KCase (v : cexpr) (vs : list cexpr) (b : cblk) (rest : ccases)
@@ -496,6 +499,7 @@ Fixpoint snode (s : cstmt) : node :=
       NFor 0 x (NFunc 0 jn_range (cnode a1 :: map cnode rest)) (NList 0 (bnodes body)) (if hasie then Some (NList 0 (bnodes ie)) else None)
   | SCss e sfx => NCss 0 (match e with Some x => Some (cnode x) | None => None end) sfx
   | SCall name d ps => NCall 0 name (cdata_all d) (cdata_node d) (pnodes ps)
+  | SMsg body => NMsg 0 0 [] [] (mnodes body)
   end
 with bnodes (b : cblk) : list node :=
   match b with BNil => [] | BCons s r => snode s :: bnodes r end
@@ -510,6 +514,12 @@ with knodes (k : ccases) : list node :=
   | KNone => []
   | KDefault b => [NSwitchCase 0 [] (NList 0 (bnodes b))]
   | KCase v vs b rest => NSwitchCase 0 (cnode v :: map cnode vs) (NList 0 (bnodes b)) :: knodes rest
+  end
+(* the children of a message node: raw text as it is, everything else as the body of a placeholder *)
+with mnodes (b : cblk) : list node :=
+  match b with
+  | BNil => []
+  | BCons s r => (match s with SRaw t => NRawText 0 t | _ => NMsgPlaceholder 0 [] (snode s) end) :: mnodes r
   end
 with pnodes (ps : cparams) : list node :=
   match ps with
@@ -533,6 +543,7 @@ Fixpoint sdepth (s : cstmt) : nat :=
   | SForRange _ a1 rest body _ ie => S (S (S (Nat.max (Nat.max (cdepth a1) (cdepths rest)) (Nat.max (bdepth body) (bdepth ie)))))
   | SCss e _ => S (S (match e with Some x => cdepth x | None => 0%nat end))
   | SCall _ d ps => S (S (Nat.max (ddepth d) (pdepth ps)))
+  | SMsg body => S (bdepth body)
   end
 with bdepth (b : cblk) : nat :=
   match b with BNil => 0%nat | BCons s r => Nat.max (S (sdepth s)) (bdepth r) end
@@ -557,6 +568,12 @@ with pdepth (ps : cparams) : nat :=
 
 (* the data argument of a generated call: {} , opt_data, or an expression *)
 Inductive jdata := JDEmpty | JDOpt | JDExpr (e : jexpr).
+(* the statements a message can hold: raw text, print, call (they bind nothing) *)
+Fixpoint msg_ok (b : cblk) : bool :=
+  match b with
+  | BNil => true
+  | BCons s r => (match s with SRaw _ | SPrint _ _ | SCall _ _ _ => true | _ => false end) && msg_ok r
+  end.
 Inductive jstmt :=
 | JSAppendLit (buf t : bstr)                                   (* buf += 'text'; *)
 | JSAppend (buf : bstr) (e : jexpr)                            (* buf += e; *)
@@ -573,6 +590,7 @@ Inductive jstmt :=
 | JSCall (buf name : bstr) (d : jdata) (ps : jparams)
     (* [var param_n = ''; statements that append to param_n]*  (one group per content parameter, in order), then
        buf += name(d, opt_sb, opt_ijData);   or   buf += name(soy.$$augmentMap(d, {k: e, k2: param_n, ..}), opt_sb, opt_ijData); *)
+| JSSeq (b : jblk)                                              (* the statements of b, one after the other (no braces) *)
 with jblk := JBNil | JBCons (s : jstmt) (r : jblk)
 with jelse := JLNone | JLElse (b : jblk) | JLElif (c : jexpr) (th : jblk) (rest : jelse)
 with jcases := JKNone | JKDefault (b : jblk) | JKCase (v : jexpr) (vs : list jexpr) (b : jblk) (rest : jcases)
@@ -642,6 +660,7 @@ Fixpoint sgen (mode : N) (buf : bstr) (sc : list (list (bstr * bstr))) (n : N) (
                   (jsc_name (x ++ t_index) (n + 1)) ei es el jb hasie ji, (sc, n2))
   | SCss e sfx => (JSCss buf (match e with Some x => Some (cgen sc x) | None => None end) sfx, (sc, n))
   | SCall name d ps => let '(jps, n1) := pgen mode sc n ps in (JSCall buf name (dgen sc d) jps, (sc, n1))
+  | SMsg body => let '(jb, n1) := bgen mode buf sc n body in (JSSeq jb, (sc, n1))     (* no new frame; the statements of a message bind nothing *)
   end
 with bgen (mode : N) (buf : bstr) (sc : list (list (bstr * bstr))) (n : N) (b : cblk) : jblk * N :=
   match b with
@@ -830,6 +849,7 @@ Fixpoint js_exec (env : jenv) (s : jstmt) : outcome jenv :=
       dv <- js_call_data env1 d (jp_args ps) ;;
       r <- jcall name dv (js_ij_arg env1) ;;
       js_append_text env1 buf r
+  | JSSeq b => jb_exec env b
   end
 with jb_exec (env : jenv) (b : jblk) : outcome jenv :=
   match b with JBNil => Ok env | JBCons s r => env' <- js_exec env s ;; jb_exec env' r end
@@ -1014,6 +1034,7 @@ Section Sout.
             end
         | None => None
         end
+    | SMsg body => if msg_ok body then match bout env body with Some t => Some (t, env) | None => None end else None
     end
   with bout (env : bstr -> option value) (b : cblk) : option bstr :=
     match b with
@@ -1118,6 +1139,7 @@ Fixpoint sprint (ind : nat) (s : jstmt) : list chunk :=
   | JSCall buf name d ps =>
       pprint ind ps
       ++ sp_ind ind ++ ([CName buf; CText t_pluseq; CName name; CText t_lpar] ++ jcall_arg d (jp_args ps) ++ [CText t_call_tail]) ++ [CText t_nl]
+  | JSSeq b => bprint ind b
   end
 with bprint (ind : nat) (b : jblk) : list chunk :=
   match b with JBNil => [] | JBCons s r => sprint ind s ++ bprint ind r end
@@ -1159,6 +1181,7 @@ Fixpoint swf (lv : list bstr) (s : cstmt) : bool :=
       is_ident x && (Nat.leb (length rest) 2) && cwf lv a1 && forallb (cwf lv) rest && bwf (x :: lv) body && bwf lv ie
   | SCss e _ => match e with Some x => cwf lv x | None => true end
   | SCall _ d ps => (match d with DExpr e => cwf lv e | _ => true end) && pwf lv ps
+  | SMsg body => msg_ok body && bwf lv body
   end
 with bwf (lv : list bstr) (b : cblk) : bool :=
   match b with BNil => true | BCons s r => swf lv s && bwf lv r end
